@@ -791,9 +791,29 @@ def _loop_returns_to_flag(tree):
     return tree
 
 
+def _inplace_methods(tree):
+    """`x.mul_(v)` / `x.add_(v)` / `x.sub_(v)` / `x.div_(v)` as a statement (one argument, no keywords) is `x *= v` etc. - both are the
+    in-place operation on the same tensor"""
+    ops = {"mul_": ast.Mult, "add_": ast.Add, "sub_": ast.Sub, "div_": ast.Div}
+
+    class T(ast.NodeTransformer):
+        def visit_Expr(self, node):
+            c = node.value
+            if isinstance(c, ast.Call) and isinstance(c.func, ast.Attribute) and c.func.attr in ops and len(c.args) == 1 and not c.keywords \
+                    and isinstance(c.func.value, (ast.Name, ast.Attribute, ast.Subscript)) and not isinstance(c.args[0], ast.Starred):
+                tgt = c.func.value
+                tgt = ast.Name(id=tgt.id, ctx=ast.Store()) if isinstance(tgt, ast.Name) else tgt
+                if not isinstance(tgt, ast.Name):
+                    tgt.ctx = ast.Store()
+                return ast.copy_location(ast.AugAssign(target=tgt, op=ops[c.func.attr](), value=c.args[0]), node)
+            return node
+    return T().visit(tree)
+
+
 def normal_form(tree):
     """the load-time normal form of a module (see DESIGN 2.1b)"""
     tree = _strip_local_annotations(tree)
+    tree = _inplace_methods(tree)
     tree = _unroll_constant_tables(tree)
     tree = ast.fix_missing_locations(_split_tuple_assigns(_ExprCanon().visit(tree)))
     tree = _forelse_to_flag(tree)
